@@ -43,9 +43,11 @@ class Printer(object):
         for k, v in d.items():
             setattr(self, k, v)
 
-    def key(self):
+    def key(self, depth=True):
+        """Canonical state.  depth=False leaves out the retraction depth (hwm - fil) for monitors that
+        cannot observe it (their verdicts depend on increments of fil only)."""
         return (tuple(sorted(self.p.items())), tuple(sorted(self.shift.items())), self.abs, self.eabs,
-                self.unit, self.E, self.hwm - self.fil, self.fw, self.F, self.fw_errors)
+                self.unit, self.E, (self.hwm - self.fil) if depth else None, self.fw, self.F, self.fw_errors)
 
     def depth(self):
         return self.hwm - self.fil
